@@ -16,7 +16,7 @@ from concurrent.futures import ProcessPoolExecutor
 import numpy as np
 
 from .. import stages
-from ..common import Check, sha
+from ..common import Check, sha, touch_same_index
 from ..tlc import Workdir
 
 PROP = "C03"
@@ -378,6 +378,8 @@ def record_long(seed, count):
         try:
             if use_capa:
                 det = CAPA(collective_penalty_scale=cscale, point_penalty_scale=pscale, min_segment_length=m, max_segment_length=mx).fit(X)
+                if rng.integers(0, 2):
+                    touch_same_index(det, X)
                 outp = det.predict(X)
                 ca, cb, pa, pb, pp = float(det.collective_penalty_), [0.0], float(det.point_penalty_), [0.0], 1
                 vals = vals.sum(axis=1, keepdims=True)
@@ -385,6 +387,8 @@ def record_long(seed, count):
                 fam = str(rng.choice(["dense", "sparse", "combined"]))
                 det = MVCAPA(collective_penalty=fam, collective_penalty_scale=cscale, point_penalty="sparse", point_penalty_scale=pscale,
                              min_segment_length=m, max_segment_length=mx).fit(X)
+                if rng.integers(0, 2):
+                    touch_same_index(det, X)
                 outp = det.predict(X)
                 ca, cb = capa_penalty_factory(fam)(n, p, 1, scale=cscale)
                 pa, pb = capa_penalty_factory("sparse")(n, p, 1, scale=pscale)
